@@ -131,4 +131,13 @@ class RealFs(RealVolumeOf, Fs):
         return fs.write_file(path, content)
 
     def lexists(selfs, path):
-        return os.path.lexists(path)
+        try:
+            os.lstat(path)
+        except OSError as e:
+            # only these tell that nothing is there; EACCES, EIO, ... tell
+            # that we could not look (trash-put -f must not take that for
+            # "does not exist, nothing to do")
+            return e.errno not in (errno.ENOENT, errno.ENOTDIR)
+        except ValueError:
+            return False
+        return True
